@@ -804,6 +804,7 @@ def stateful_thread_correspondence(chk, n):
     from harness.core import Driver
     drv = Driver("Engine")
     rng = chk.rng
+    flaky_variant = detect_flaky_variant()
     runs, reqs = [], []
     for _ in range(n):
         suites = gen_suites(rng)
@@ -814,7 +815,10 @@ def stateful_thread_correspondence(chk, n):
             for st in s["scen_statuses"]:
                 sid += 1
                 scen += [{"k": "scenStarted", "id": sid}, {"k": "scenFinished", "id": sid, "st": st}]
-            msuites.append({"scen": scen, "ending": s["ending"], "interruptedAtStart": s["interruptedAtStart"],
+            # the scripted machine never collects a check failure: on a tree with the repaired Flaky arm a "flaky" ending is
+            # the model's `flakyNoFailure` (error, leave the loop); on the tree as found both behave as `flaky`
+            ending = "flakyNoFailure" if s["ending"] == "flaky" and flaky_variant == "repaired" else s["ending"]
+            msuites.append({"scen": scen, "ending": ending, "interruptedAtStart": s["interruptedAtStart"],
                             "limitReached": s["limitReached"]})
         runs.append((suites, real))
         reqs.append(("stateful_thread", {"suites": msuites}))
@@ -854,7 +858,8 @@ def stateful_thread_correspondence(chk, n):
             if sc["interruptedAtStart"]:
                 break
             ran.append(sc)
-            if not (sc["ending"] in ("failureGroup", "flaky") and not sc["limitReached"]):
+            if not (sc["ending"] in (("failureGroup", "flaky") if flaky_variant == "asFound" else ("failureGroup",))
+                    and not sc["limitReached"]):
                 break
         failing_end = any(sc["ending"] in ("failureGroup", "flaky", "otherException") for sc in ran)
         if failing_end and not any(e["k"] == "suiteFinished" and e["st"] in ("failure", "error") for e in real):
@@ -1308,3 +1313,130 @@ def machine_thread_correspondence(chk, n):
             chk.disagreement("stateful-machine:execute_state_machine_loop+machine", inp,
                              {"state": mstate, "suites": m["suites"]}, {"state": state, "suites": n_suites})
         yield inp, state, used
+
+
+def sm_stream_violation(out):
+    """Python mirror of SV.Spec.SM.wfRun / idsFrom on a canonical stateful stream: None if accepted, else why not"""
+    suite, scen, seen_ids = None, None, set()
+    for e in out:
+        k = e["k"]
+        if k == "suiteStarted":
+            if suite is not None or scen is not None:
+                return "a suite is opened while a suite or a scenario is still open"
+            suite = e["n"]
+        elif k == "suiteFinished":
+            if suite != e["n"] or scen is not None:
+                return "SuiteFinished for a suite that is not open, or while a scenario is still open"
+            suite = None
+        elif k == "scenStarted":
+            if suite is None or scen is not None:
+                return "ScenarioStarted outside a suite or while another scenario is open"
+            if e["id"] in seen_ids:
+                return "scenario id used twice"
+            seen_ids.add(e["id"])
+            scen = e["id"]
+        elif k == "scenFinished":
+            if scen != e["id"]:
+                return "ScenarioFinished without its ScenarioStarted (or for another scenario)"
+            scen = None
+        elif k in ("nonFatal", "interrupted"):
+            if suite is None or scen is not None:
+                return f"{k} outside a suite or inside a scenario"
+        else:
+            return f"unexpected event {k}"
+    if suite is not None or scen is not None:
+        return "a suite or a scenario is left open"
+    return None
+
+
+INTERMITTENT_KF = "stateful:execute_state_machine_loop:intermittent-error-never-ends"
+
+
+def intermittent_error_probe(chk, prop, max_failures=1, suite_cap=8):
+    """failing-input search for the Flaky arm on the REAL engine and the real Hypothesis: an internal error that occurs on
+    every other call (so it never repeats when Hypothesis replays the scenario).  The stateful phase must end, and the
+    error must be reported."""
+    n = [0]
+
+    def intermittent(ctx, response, case):
+        n[0] += 1
+        if n[0] % 2 == 1:
+            raise RuntimeError("intermittent internal error")
+
+    from flask import Flask, jsonify
+    app = Flask("verif-sm")
+
+    @app.route("/users", methods=["POST"])
+    def create():
+        return jsonify({"id": 1}), 201
+
+    @app.route("/users/<int:i>", methods=["GET"])
+    def get(i):
+        return jsonify({"id": i}), 200
+
+    with Server(app) as srv:
+        schema = load_schema(srv.url, raw=STATEFUL_RAW)
+        cfg = engine_config(phases=[PhaseName.STATEFUL_TESTING], max_failures=max_failures, max_examples=6, checks=[intermittent])
+        suites = [0]
+        errored = [0]
+        nonfatal = [0]
+
+        def on_event(ev, stream):
+            k = ev_kind(ev)
+            if k == "SuiteStarted" and ev.phase == PhaseName.STATEFUL_TESTING:
+                suites[0] += 1
+                if suites[0] >= suite_cap:
+                    stream.stop()
+            if k == "ScenarioFinished" and ev.status == Status.ERROR:
+                errored[0] += 1
+            if k == "NonFatalError":
+                nonfatal[0] += 1
+        evs = run_engine(schema, cfg, on_event=on_event)
+    last = [e for e in evs if ev_kind(e) == "PhaseFinished" and e.phase.name == PhaseName.STATEFUL_TESTING]
+    info = {"suites": suites[0], "errored_scenarios": errored[0], "non_fatal_errors": nonfatal[0], "max_failures": max_failures,
+            "phase_status": STATUS[last[-1].status] if last else None, "suite_cap": suite_cap,
+            "how": "stateful phase, 2-operation API with one link, one custom check that raises RuntimeError on every odd call"}
+    chk.case("stateful-machine:intermittent-error:engine-run", key=[max_failures], sample=info)
+    if suites[0] >= suite_cap:
+        chk.violation(f"{prop}:{INTERMITTENT_KF}",
+                      f"an internal error that does not repeat on replay keeps the stateful phase running: {suites[0]} suites "
+                      f"(stopped by the harness), {errored[0]} errored scenarios with max_failures={max_failures}, no error reported",
+                      info)
+    elif errored[0] and not nonfatal[0]:
+        chk.violation(f"{prop}:stateful:intermittent-error:not-reported", "an errored scenario but no error event", info)
+    return info
+
+
+def stateful_machine_checks(chk, n_ops, n_thread, prop):
+    """correspondence of the machine model + the specification predicates on what the real code produced"""
+    for inp, results, state in machine_ops_correspondence(chk, n_ops):
+        # C05: every failure marked as seen in this suite was recorded for some scenario (nothing is swallowed on the way)
+        rec = {f for _, f in state["recorded"]}
+        missing = [f for f in state["seenSuite"] if f not in rec]
+        if missing:
+            chk.violation(f"{prop}:stateful:validate_response:failure-marked-seen-but-not-recorded",
+                          f"failures {missing} were marked as seen in the suite but no scenario recorder holds them", inp)
+        # C12: with a limit the counter is the number of recorded failures, and the flag is set iff it reached the limit
+        mf = inp["maxFailures"]
+        if mf is not None:
+            if state["ctl"]["failures"] != len(state["recorded"]) or state["ctl"]["limit"] != (len(state["recorded"]) >= mf):
+                chk.violation(f"{prop}:stateful:count_failure:counter-or-limit-flag-disagrees-with-recorded-failures",
+                              f"{len(state['recorded'])} failures recorded, control says {state['ctl']}", inp)
+    for inp, state, used in machine_thread_correspondence(chk, n_thread):
+        bad = sm_stream_violation(state["out"])
+        if bad:
+            chk.violation(f"{prop}:stateful:thread-stream-not-well-nested", bad, {**inp, "out": state["out"]})
+        # C05: a run that Hypothesis ends with a failure / flaky / error never leaves every suite SUCCESS or SKIP
+        hyps = [r["hyp"] for r in inp["runs"][:max(used, 1)]]
+        closed = [e["st"] for e in state["out"] if e["k"] == "suiteFinished"]
+        ran = len([e for e in state["out"] if e["k"] == "suiteStarted"])
+        for r, h, st in zip(inp["runs"], hyps, closed):
+            # runs in which a stop request, Ctrl-C or another BaseException occurs end by those, not by Hypothesis' verdict
+            if r.get("stopBeforeSuite") or any(stp.get("stopBefore") or stp["call"] in ("interrupted", "baseExc")
+                                               for sc in r["scens"] for stp in sc["steps"]):
+                break
+            if (isinstance(h, list) or h in ("flaky", "otherException")) and st in ("success", "skip"):
+                chk.violation(f"{prop}:stateful:failed-run-closed-as-{st}", f"run ended {h} but its suite was closed {st}",
+                              {**inp, "out": state["out"]})
+    chk.proved += ["StatefulMachine: stateful_thread_wellformed (every Hypothesis/API/check behaviour), new_failure_reported, "
+                   "scenario_closed_as_failed, nothing_sent_after_stop, loop_terminates_repaired, loop_asFound_unbounded"]
